@@ -45,6 +45,13 @@ theorem cancel_bounded_vm {σ : Type} (m : Machine σ) (T : Nat) (s : σ) :
   · intro fuel t p tr r h; exact run_time_bound m quantum T fuel t p tr s r h
   · intro fuel t p tr he hT; exact run_cancelled_at_poll m quantum T fuel t p tr s he hT
 
+/-- A core that is started when the context is already cancelled — the successor in a relay of short-lived
+threads, say — executes nothing at all: the poll comes before its first instruction, so the relay cannot outlive
+the cancellation by way of cores that never reach a poll. (Instance of `cancel_bounded_vm` (3) at time 0.) -/
+theorem late_core_runs_nothing {σ : Type} (m : Machine σ) (s : σ) (fuel : Nat) (he : m.empty s = false) :
+    run m quantum 0 (fuel + 1) 0 0 [] s = some ⟨some .terminate, 0, 1, [m.obs s]⟩ := by
+  simpa using (cancel_bounded_vm m 0 s).2.2 fuel 0 0 [] he (Nat.le_refl 0)
+
 /-- The interpreter polls at every statement and expression: no node is visited at or after the
 cancellation, whatever the program does, and the evaluation ends. -/
 theorem cancel_bounded_tree {σ : Type} (m : TreeMachine σ) (T : Nat) (s : σ) :
